@@ -38,13 +38,21 @@ func genC04Shared(seed uint64, run int) *Plan {
 	p.Cfg = Cfg{Store: "mem", Strategy: pick(r, "random", "random", "pct", "sticky"), PCTDepth: 1 + r.IntN(3), ExpireMs: 60000, Variant: "sharedtxn", SharedSess: true}
 	p.Cfg.Fine = pick(r, 0, 1, 1, 1, 2)
 	keys := 1 + r.IntN(2)
+	uniq := 0
 	for ti, n := 0, 2+r.IntN(2); ti < n; ti++ {
 		tp := TaskPlan{Name: fmt.Sprintf("member%d", ti)}
 		for k := 1 + r.IntN(4); k > 0; k-- {
 			key := bson.D{{Key: "_id", Value: int32(r.IntN(keys))}}
 			inc := bson.D{{Key: "$inc", Value: bson.D{{Key: "n", Value: int32(1)}}}}
 			var sub Op
-			switch r.IntN(5) {
+			switch r.IntN(7) {
+			case 5:
+				// documents of their own: every acknowledged one must be there after the commit
+				uniq++
+				sub = Op{K: "insertOne", DB: "db", C: "k", D: jd(bson.D{{Key: "_id", Value: int32(100 + uniq)}, {Key: "own", Value: true}})}
+			case 6:
+				uniq++
+				sub = Op{K: "replaceOne", DB: "db", C: "k", F: jd(bson.D{{Key: "_id", Value: int32(100 + uniq)}}), D: jd(bson.D{{Key: "own", Value: true}}), Upsert: true}
 			case 0, 1:
 				sub = Op{K: "updateOne", DB: "db", C: "k", F: jd(key), U: jd(inc), Upsert: true}
 			case 2, 3:
@@ -140,6 +148,10 @@ func genC04Plain(seed uint64, run int, tier string) *Plan {
 							Op{K: "updateOne", DB: "db", C: "k", F: jd(bson.D{{Key: "_id", Value: b}}), U: jd(bson.D{{Key: "$inc", Value: bson.D{{Key: "bal", Value: int32(1)}}}}), Upsert: true})
 					default:
 						op.Sub = append(op.Sub, single())
+					}
+					if r.IntN(6) == 0 {
+						// a cursor opened in the middle of the body and read at its end
+						op.Sub = append(op.Sub, Op{K: "findLater", DB: "db", C: "k", F: jd(bson.D{})})
 					}
 				}
 			default:
@@ -245,6 +257,7 @@ func execC04Shared(t *testing.T, plan *Plan) *Outcome {
 		}
 		incs := map[string]int{}
 		afters := map[string]map[int32]bool{}
+		var owned []any // ids of documents written by exactly one acknowledged call
 		for _, a := range actors {
 			for _, c := range a.calls {
 				if c.Op.K == "s.expire" {
@@ -259,6 +272,18 @@ func execC04Shared(t *testing.T, plan *Plan) *Outcome {
 				}
 				sub := &c.Op.Sub[0]
 				if sub.K == "find" {
+					continue
+				}
+				if sub.K == "insertOne" || sub.K == "replaceOne" {
+					if c.Err != nil {
+						e.violate(violation("C04", "shared-transaction-call-failed", sub.K, fmt.Sprintf("%s inside the shared transaction failed: %v", opStr(sub), c.Err)))
+						return
+					}
+					id := model.Get(sub.D.doc(), "_id")
+					if sub.K == "replaceOne" {
+						id = model.Get(sub.F.doc(), "_id")
+					}
+					owned = append(owned, id)
 					continue
 				}
 				key := valStr(model.Get(sub.F.doc(), "_id"))
@@ -296,6 +321,12 @@ func execC04Shared(t *testing.T, plan *Plan) *Outcome {
 					n, _ := model.Get(dd, "n").(int32)
 					final[valStr(model.Get(dd, "_id"))] = int(n)
 				}
+			}
+		}
+		for _, id := range owned {
+			if _, ok := final[valStr(id)]; !ok {
+				e.violate(violation("C04", "lost-update", "shared-transaction", fmt.Sprintf("a write of document %s was acknowledged inside the shared transaction, the committed collection does not have it", valStr(id))))
+				return
 			}
 		}
 		for key, want := range incs {
